@@ -130,7 +130,7 @@ def _install():
 
     def slinit(self, *a, **k):
         sinit(self, *a, **k)
-        self._queue = LogDeque(self._queue)
+        self._queue = LogDeque(self._queue, getattr(self._queue, "maxlen", None))
 
     SL.__init__ = slinit
 
